@@ -696,6 +696,11 @@ def rand_cover(rng, i, with_hist_crs):
            "nodata_pixels": False, "zeros": False,
            "src_chunks": [rand_chunks(rng, h), rand_chunks(rng, w)], "dst_chunks": dch,
            "scheduler": "synchronous", "optimize": True, "layout": "yx"}
+    if i % 3 == 1:      # 1-pixel source chunks: every partly covered source pixel is a tile of its own
+        cfg["src_chunks"] = [[1] * h, [1] * w]
+    elif i % 3 == 2:    # small source chunks that do not divide the raster
+        cy, cx = rng.choice([(7, 9), (3, 2), (2, 5), (4, 3)])
+        cfg["src_chunks"] = [[min(cy, h - k) for k in range(0, h, cy)], [min(cx, w - k) for k in range(0, w, cx)]]
     if i % 3 == 0 and not tiny:
         cfg["layout"], cfg["T"], cfg["t_chunk"] = "tyx", rng.choice([2, 3]), rng.choice([1, 2])
     return cfg
@@ -848,6 +853,46 @@ def rand_same_crs(rng, kind=None, level="xr", layout=True, absent_dn=False):
         cfg["zeros"] = rng.random() < 0.6
     if layout:
         rand_layout(rng, cfg)
+    return cfg
+
+
+def rand_chunk_aligned(rng, level, layout=True):
+    """same CRS, destination grid bit-identical to the source grid or moved by whole source chunks, destination chunks
+    = unions of source chunks (the clipped source mosaic of such a chunk IS the chunk's GeoBox); explicit destination
+    nodata different from the source nodata, nodata pixels present"""
+    tr, crs = rng.choice(SRC_GRIDS)
+    cy, cx = rng.choice([1, 2, 3, 4]), rng.choice([1, 2, 3, 4])
+    ny, nx = rng.randint(2, 4), rng.randint(2, 4)
+    h, w = cy * ny + rng.choice([0, 0, cy - 1]), cx * nx + rng.choice([0, 0, cx - 1])
+    h, w = max(h, 3), max(w, 4)
+    ky, kx = rng.choice([1, 1, 2]), rng.choice([1, 1, 2])
+    my, mx = rng.choice([0, 0, 1, -1]), rng.choice([0, 0, 1, -1])
+    H, W = (h, w) if rng.random() < 0.6 else (h + rng.choice([-1, 2]) * cy, w + rng.choice([-1, 2]) * cx)
+    H, W = max(H, 1), max(W, 1)
+    dtype = rng.choice(["int16", "uint8", "float32", "float64", "int32", "int8", "uint16"])
+    dt = np.dtype(dtype)
+    sn = 5 if dtype == "int8" else 7
+    if dtype == "uint8":
+        dn = rng.choice([0, 251, 255])
+    elif dtype == "int8":
+        dn = rng.choice([-128, -1, 120])
+    elif dt.kind == "u":
+        dn = rng.choice([0, 1000, 60000])
+    elif dt.kind == "f":
+        dn = rng.choice(["nan", "nan", -5, 0, 1000])
+    else:
+        dn = rng.choice([0, -5, 1000, 30000])
+    cfg = {"kind": "chunk-aligned", "src_shape": [h, w], "src_tr": tr, "src_crs": crs, "dst_shape": [H, W],
+           "dst_tr": dst_tr_from_map(tr, (1, 1, mx * cx, my * cy, False)), "dst_crs": crs, "dtype": dtype,
+           "nodata_attr": sn if level == "xr" else None, "src_nodata": None if level == "xr" else sn, "dst_nodata": dn,
+           "nodata_pixels": True, "zeros": False,
+           "src_chunks": [[min(cy, h - k) for k in range(0, h, cy)], [min(cx, w - k) for k in range(0, w, cx)]],
+           "dst_chunks": [ky * cy, kx * cx], "scheduler": rng.choice(["synchronous", "threads"]), "optimize": rng.random() < 0.7}
+    if layout:
+        cfg["layout"] = rng.choice(["yx", "tyx", "tyx"])
+        if cfg["layout"] == "tyx":
+            cfg["T"] = rng.choice([1, 2, 3])
+            cfg["t_chunk"] = rng.choice([1, 2, cfg["T"]])
     return cfg
 
 
@@ -1166,6 +1211,8 @@ def run(out, tier, scratch):
     kinds = ["aligned", "subpixel", "scaled", "mirrored", "swapped", "partial", "disjoint", "larger"]
     for i in range(n_runs):
         cfg = rand_same_crs(rng, kind=kinds[i % len(kinds)], level="raw", layout=False, absent_dn=True)
+        if i % 5 == 4:
+            cfg = rand_chunk_aligned(rng, "raw", layout=False)
         if rng.random() < 0.6:
             cfg["layout"], cfg["T"] = "tyx", rng.choice([1, 2, 3])
             cfg["t_chunk"] = cfg["T"]
@@ -1221,6 +1268,9 @@ def run(out, tier, scratch):
             cfg.setdefault("B", 2)
             cfg["T"], cfg["t_chunk"] = rng.choice([(3, 2), (5, 2), (5, 3), (4, 3)])
         judge("disjoint" if cfg["kind"] == "disjoint" else "equal", cfg, f"search {i}")
+    # destination chunks coinciding with unions of source chunks, dst_nodata != source nodata, nodata pixels present
+    for i in range(24 if tier == "quick" else 300):
+        judge("equal", rand_chunk_aligned(rng, "xr"), f"chunk-aligned {i}")
     # near-equal pixel sizes over thousands of rows / columns, source chunked along the long axis
     for i in range(8 if tier == "quick" else 60):
         judge("tall", rand_tall(rng, i), f"tall {i}")
